@@ -53,7 +53,7 @@ func runC19(t *testing.T, seed uint64, m *Mask) *Report {
 		case 0:
 			op.HCode, op.HStatus = int32(1000+r.Intn(500)), [3]string{"", "backend says no", "because " + op.Tag}
 		case 1:
-			op.HPanic = true
+			op.HPanic, op.HPanicKind = true, op.Idx%6
 		}
 		op.HYield = r.Intn(6)
 		if r.Chance(0.3) {
